@@ -1658,7 +1658,11 @@ def declare_rules(ck):
             "of the node being refined - the object the mesh refinery of the same function refines, or a const parent parameter - never something derived from a refinery product / the node under construction "
             "(the parent supplies the coarse entity counts for the target offsets: any halo/patch/part with edges or cells is mis-targeted otherwise)", min_instances=36)
     ck.rule("E10.perm-inverse-pair", "MeshPermutation: a member that establishes forward permutations _perms[d] (assignment, whole array handed to a helper, delegation) also establishes _inv_perms[d] = _perms[d].inverse() "
-            "(or the corresponding copy) for the same dimensions d, after the forward one and under the same conditions (an empty inverse means 'not renumbered' to TargetSet::permute_map: parts with cells keep stale cell targets)", min_instances=42)
+            "(or the corresponding copy) for the same dimensions d, after the forward one and under the same conditions (an empty inverse means 'not renumbered' to TargetSet::permute_map: parts with cells keep stale cell targets)", min_instances=56)
+    ck.rule("E10.transfer-siblings", "kernel/geometry classes: move constructor, move assignment, clone(other) and clone() of one class transfer the same data members - a member transferred by one sibling is "
+            "transferred or re-established by every other (otherwise the destination keeps a stale member, e.g. the facet neighbours of the mesh that was overwritten)", min_instances=137)
+    ck.rule("E10.collection-guards", "mesh_node.hpp: a loop over one member collection of a node (mesh part nodes, halos, patches, ...) is not reached only under a condition on a different member collection "
+            "(an early-out on the emptiness of one collection must not skip the processing of the others, e.g. permuting the halos of a node without mesh parts)", min_instances=30)
     ck.rule("E10.dual-adapt", "DualAdaptor::adapt (refine_unique with AdaptMode::dual): the only fine vertices modified are the cell midpoints, numbered like the vertex refiner numbers them "
             "(sum of the coarse entity counts of lower dimension + i), each written once (cleared first) as the mean of the facet midpoints of its own cell, addressed by the facet-midpoint offset "
             "of the same numbering (any hexahedral mesh with AdaptMode::dual otherwise gets wrong geometry)", min_instances=6)
@@ -1751,7 +1755,7 @@ def check_dual_adaptor(T, ck, facts, vbases):
     for sh in SHAPES:
         D = sh[1]
         fns = [f for f in facts.functions if f.tk != "pattern" and f.name == "adapt" and f.body is not None and
-               re.match(r"^FEAT::Geometry::Intern::DualAdaptor<FEAT::Geometry::ConformalMesh<FEAT::Shape::%s, " % re.escape(sname(sh)), f.cls)]
+               re.match(r"^FEAT::Geometry::Intern::DualAdaptor<(FEAT::)?(Geometry::)?ConformalMesh<(FEAT::)?(Shape::)?%s, " % re.escape(sname(sh)), f.cls)]
         key = "DualAdaptor<%s>" % sname(sh)
         if len(fns) != 1:
             ck.incomplete("E10.dual-adapt", "%s::adapt not instantiated (%d)" % (key, len(fns)))
@@ -2434,6 +2438,243 @@ def check_perm_pairs(ck, facts):
             ck.ob(R, key, not prob, "; ".join(prob[:3]) or "forward and inverse permutations established for dimensions %s" % sorted(F), f.file, f.line)
 
 
+# =================================================================================================
+# copy-like operations of the mesh classes (sibling agreement); guards of loops over part collections
+# =================================================================================================
+
+def mentions(n, pred):
+    return any(pred(x) for x in featlib.walk(n))
+
+
+def field_of(n, is_dest):
+    """data member of the destination object an lvalue / receiver expression belongs to, or None"""
+    for _ in range(12):
+        if n is None:
+            return None
+        k = n.get("k")
+        if k == "Cast" or (k == "Un" and n.get("op") in ("*", "&")):
+            n = n["e"]
+        elif k == "Index":
+            n = n["b"]
+        elif k == "OpCall" and n.get("op") in ("[]", "*", "->", "()") and n.get("a"):
+            n = n["a"][0]
+        elif k == "MCall" and n.get("n") in ("at", "get", "back", "front") and n.get("obj") is not None:
+            n = n["obj"]
+        elif k == "Member":
+            if is_dest(n.get("b")):
+                return n["n"]
+            n = n.get("b")
+        else:
+            return None
+    return None
+
+
+def check_transfer_siblings(ck, facts):
+    """move constructor, move assignment and clone of a class transfer the same data members"""
+    R = "E10.transfer-siblings"
+    by_cls = {}
+    for f in facts.functions:
+        if f.tk == "pattern" or f.body is None or not f.file.startswith(featlib.repo_path("kernel/geometry/")):
+            continue
+        pts = [f.type(p["t"]) or "" for p in f.params]
+        kind = None
+        if f.d.get("ctor") and len(pts) == 1 and pts[0].rstrip().endswith("&&"):
+            kind = "move-ctor"
+        elif f.name == "operator=" and len(pts) == 1 and pts[0].rstrip().endswith("&&"):
+            kind = "move-assign"
+        elif f.name == "clone" and len(pts) <= 1:
+            kind = "clone(other)" if pts else "clone()"
+        if kind:
+            by_cls.setdefault(f.cls, {})[kind] = f
+    for cls, ops in sorted(by_cls.items()):
+        if len(ops) < 2:
+            continue
+        info = {}
+        for kind, f in ops.items():
+            ctor_fields = set()
+            if kind == "clone()":
+                norm = lambda t: short(re.sub(r"^(const )?(class |struct )?", "", t or "").strip()).replace(" ", "")
+                loc = [v for n in f.nodes() if n.get("k") == "Decl" for v in n.get("vars", [])
+                       if norm(f.type(v.get("t"))) in (norm(cls), norm(cls).split("<")[0]) or norm(f.type(v.get("t"))).startswith(norm(cls).split("<")[0] + "<") and norm(f.type(v.get("t"))) == norm(cls)]
+                dest_d = loc[0]["d"] if loc else None
+                if dest_d is None:
+                    info[kind] = "skip"          # e.g. `return X(private clone constructor arguments)`: not comparable member-wise
+                    continue
+                ini = loc[0].get("init")
+                if ini is not None and ini.get("k") in ("Construct", "TempObj") and ini.get("a"):
+                    g = [x for x in facts.functions if x.tk != "pattern" and x.d.get("ctor") and x.cls == cls and x.full == ini.get("cfull") and len(x.params) == len(ini.get("pn", []))]
+                    if not g or g[0].body is None:
+                        info[kind] = "skip"
+                        continue
+                    ctor_fields = {i2["member"] for i2 in (g[0].d.get("inits", []) or []) if "member" in i2}
+                    for x in g[0].nodes():
+                        l2 = x["a"][0] if (x.get("k") == "OpCall" and x.get("op") == "=" and x.get("a")) else x.get("lhs") if x.get("k") == "Assign" else None
+                        fl = field_of(l2, lambda b: b is not None and b.get("k") == "This") if l2 is not None else None
+                        if fl:
+                            ctor_fields.add(fl)
+                is_dest = lambda b, d=dest_d: b is not None and b.get("k") == "Ref" and b.get("d") == d and d is not None
+                is_src = lambda x: x.get("k") == "This"
+            else:
+                pd = f.params[0]["d"]
+                dest_d = "this"
+                is_dest = lambda b: b is not None and b.get("k") == "This"
+                is_src = lambda x, pd=pd: x.get("k") == "Ref" and x.get("d") == pd
+            transferred, established, opaque, delegate = set(), set(ctor_fields), [], None
+            for ini in f.d.get("inits", []) or []:
+                nm = ini["member"] if "member" in ini else "<base class part>"
+                if ini.get("init") is not None:
+                    established.add(nm)
+                    if mentions(ini.get("init"), is_src):
+                        transferred.add(nm)
+            for n in f.nodes():
+                k = n.get("k")
+                lhs = rhs = None
+                if k == "MCall" and n.get("ccls") and n.get("ccls") != cls and (n.get("obj") is None or is_dest(n.get("obj"))) and not n.get("cconst") \
+                        and n.get("n") in ("operator=", "clone") and any(mentions(a, is_src) for a in n.get("a", [])):
+                    established.add("<base class part>")
+                    transferred.add("<base class part>")
+                    continue
+                if k == "OpCall" and n.get("op") == "=" and len(n.get("a", [])) == 2:
+                    lhs, rhs = n["a"]
+                elif k == "Assign":
+                    lhs, rhs = n["lhs"], n["rhs"]
+                if lhs is not None:
+                    fld = field_of(lhs, is_dest)
+                    if fld:
+                        established.add(fld)
+                        if mentions(rhs, is_src):
+                            transferred.add(fld)
+                    continue
+                if k == "MCall" and n.get("obj") is not None:
+                    fld = field_of(n["obj"], is_dest)
+                    if fld and not n.get("cconst"):
+                        established.add(fld)
+                        if any(mentions(a, is_src) for a in n.get("a", [])):
+                            transferred.add(fld)
+                    elif fld is None and is_dest(n["obj"]) and not n.get("cconst"):
+                        # whole-object call on the destination: a sibling operation (delegation) or something opaque
+                        sib = [kk for kk, g in ops.items() if g.qn == n.get("callee") and len(g.params) == len(n.get("pn", []))]
+                        if sib and any(mentions(a, is_src) for a in n.get("a", [])):
+                            delegate = sib[0]
+                        else:
+                            opaque.append("%s (line %s)" % (n.get("callee", "?").rsplit("::", 1)[-1], n.get("l")))
+                elif k == "Call":
+                    for a, pt in zip(n.get("a", []), n.get("pt", [])):
+                        fld = field_of(a, is_dest)
+                        ty = f.type(pt) or ""
+                        if fld and ty.rstrip().endswith("&") and not ty.lstrip().startswith("const "):
+                            established.add(fld)
+                            if any(mentions(b, is_src) for b in n.get("a", [])):
+                                transferred.add(fld)
+            info[kind] = {"t": transferred, "e": established, "opaque": opaque, "delegate": delegate, "fn": f}
+        info = {k: v for k, v in info.items() if v != "skip"}
+        if len(info) < 2:
+            continue
+        for kind, d in info.items():          # delegation: clone() { X x; x.clone(*this); }
+            if d and d["delegate"] and info.get(d["delegate"]):
+                d["t"] |= info[d["delegate"]]["t"]
+                d["e"] |= info[d["delegate"]]["e"]
+        union = set()
+        for d in info.values():
+            if d:
+                union |= d["t"]
+        for kind, d in sorted(info.items()):
+            key = "%s::%s" % (short(cls), kind)
+            if d is None:
+                ck.incomplete(R, "%s: destination object not identified" % key)
+                continue
+            missing = sorted(union - d["e"])
+            others = sorted(k2 for k2, d2 in info.items() if d2 and k2 != kind and set(missing) & d2["t"])
+            if missing and d["opaque"]:
+                ck.incomplete(R, "%s: members %s are not transferred directly and the operation calls %s on the destination" % (key, missing, d["opaque"][:2]))
+                continue
+            ck.ob(R, key, not missing, ("data member(s) %s transferred by %s are neither transferred nor re-established here: the destination keeps its old value" % (missing, others))
+                  if missing else "transfers %s" % sorted(d["t"]), d["fn"].file, d["fn"].line)
+
+
+def is_container_type(ty):
+    return bool(re.match(r"^(const )?std::(map|vector|deque|list|set|unordered_map|multimap)<", (ty or "").strip()))
+
+
+def check_collection_guards(ck, facts):
+    """mesh_node.hpp: a loop over one member collection (mesh parts / halos / patches ...) is not guarded by a
+    property of a different member collection (early-out or enclosing condition)"""
+    R = "E10.collection-guards"
+    for f in facts.functions:
+        if f.tk == "pattern" or f.body is None or not f.file.endswith("/kernel/geometry/mesh_node.hpp"):
+            continue
+
+        # member collections of the node: members used like containers in this function (begin/end/empty/size/find/range-for)
+        names = set()
+        for x in f.nodes():
+            if x.get("k") == "MCall" and x.get("n") in ("begin", "end", "cbegin", "cend", "empty", "size", "find", "count") and x.get("obj") is not None:
+                o = x["obj"]
+                while o.get("k") == "Cast":
+                    o = o["e"]
+                if o.get("k") == "Member" and o.get("b", {}).get("k") == "This":
+                    names.add(o["n"])
+            if x.get("k") == "ForRange" and x.get("range") is not None:
+                o = x["range"]
+                while o.get("k") == "Cast":
+                    o = o["e"]
+                if o.get("k") == "Member" and o.get("b", {}).get("k") == "This":
+                    names.add(o["n"])
+
+        def colls_in(n):
+            return {x["n"] for x in featlib.walk(n) if x.get("k") == "Member" and x.get("b", {}).get("k") == "This" and x["n"] in names}
+
+        def coll_of(n):
+            """member collection an iteration-domain expression belongs to"""
+            cs = sorted(colls_in(n))
+            return cs[0] if len(cs) == 1 else None
+
+        loops = []
+
+        def exits(st):
+            """statement unconditionally leaves the enclosing region"""
+            if st is None:
+                return False
+            if st.get("k") in ("Return", "Break", "Continue", "Throw"):
+                return True
+            if st.get("k") == "Block":
+                return any(exits(x) for x in st.get("s", []))
+            return False
+
+        def visit(n, guards):
+            k = n.get("k")
+            if k == "Block":
+                g = list(guards)
+                for st in n.get("s", []):
+                    visit(st, g)
+                    if st.get("k") == "If" and (exits(st.get("then")) or exits(st.get("else"))):
+                        g = g + [st["c"]]          # early-out: everything after it is guarded by its condition
+                return
+            if k == "If":
+                for br in ("then", "else"):
+                    if n.get(br) is not None:
+                        visit(n[br], guards + [n["c"]])
+                return
+            if k in ("For", "ForRange", "While"):
+                dom = n.get("range") if k == "ForRange" else (n.get("init") if n.get("init") is not None else n.get("c"))
+                c = coll_of(dom) if dom is not None else None
+                if c is not None:
+                    loops.append((c, n, list(guards)))
+                if n.get("body") is not None:
+                    visit(n["body"], guards)
+                return
+            for c in featlib.children(n):
+                if c.get("k") in ("Block", "If", "For", "ForRange", "While", "Do", "Switch", "Case", "Default", "Try"):
+                    visit(c, guards)
+        visit(f.body, [])
+        seen = {}
+        for c, n, guards in loops:
+            seen[c] = seen.get(c, 0) + 1
+            key = "%s::%s/loop(%s)%s" % (short(f.cls)[:110], f.name, c, "#%d" % seen[c] if seen[c] > 1 else "")
+            foreign = sorted(set().union(*[colls_in(g) for g in guards]) - {c}) if guards else []
+            ck.ob(R, key, not foreign, ("the loop over %s is only reached under a condition on %s: it is skipped although %s has elements to process" % (c, foreign, c)) if foreign
+                  else "reached under %d conditions, none on another collection" % len(guards), f.file, n.get("l"))
+
+
 class Prefixed:
     """Check proxy that prefixes instance keys (second configuration of the same analysis)"""
 
@@ -2502,6 +2743,8 @@ def analyse(ck, facts, second_pass=False):
     if not second_pass:
         check_refine_parent(ck, facts)
         check_perm_pairs(ck, facts)
+        check_transfer_siblings(ck, facts)
+        check_collection_guards(ck, facts)
         check_callsites(ck, facts)
         check_flips(T, ck, facts)
     # assertions met while evaluating the glue classes on concrete local indices (visible in DEBUG parses)
